@@ -13,7 +13,7 @@ PROPS = {
         "lean": ["OlricModel.Props.C11"],
         "streams": [("kv", (40, 300), (600, 400))],
         "model": True,
-        "level_text": "Refinement theorem (C11_refines): for every operation sequence of the store model, of any length and with any sizes, every answer is that of a plain map, compaction never changes contents, Put never loops; plus transfer (export/import LWW) and count/iteration theorems. The model is tied to internal/kvstore by lock-step execution with full state dumps on generated sequences.",
+        "level_text": "Refinement theorem (C11_refines): for every operation sequence of the store model, of any length and with any sizes, every answer is that of a plain map, compaction never changes contents, Put never loops; repeated Compaction answers done within 2*records + tables + 3 calls for every iteration order (C11_compaction_terminates, by a measure that every not-done call strictly lowers); plus transfer (export/import LWW) and count/iteration theorems. The model is tied to internal/kvstore by lock-step execution with full state dumps on generated sequences.",
         "design_ref": "DESIGN.md §6 C11",
         "modelled": "internal/kvstore/{kvstore,compaction,transport}.go, table/{table,pack}.go at record level (Store/Model.lean); byte layout separately (Store/Layout.lean)",
         "assumptions": [
@@ -28,11 +28,11 @@ PROPS["C20"] = {
     "lean": ["OlricModel.Props.C20"],
     "streams": [("churn", (30, 500), (300, 2000)), ("kv", (15, 300), (200, 400))],
     "model": True,
-    "level_text": "Invariant theorems over every reachable state of the store model: bytes in use = bytes of live records and inuse+garbage = bytes written for every table (so every superseding write, delete, raw write and compaction move turns the old bytes into garbage); Compaction reports done exactly when every retired table is below the 40% threshold; a recycled table is reused before a new one is allocated; per-table bound 3*alloc < 5*inuse + 5*E. Tied to internal/kvstore by the lock-step churn/kv streams whose dumps expose the counters.",
+    "level_text": "Invariant theorems over every reachable state of the store model: bytes in use = bytes of live records and inuse+garbage = bytes written for every table (so every superseding write, delete, raw write and compaction move turns the old bytes into garbage); Compaction reports done exactly when every retired table is below the 40% threshold, and the worker's call-until-done loop reaches that state in a bounded number of calls; a recycled table is reused before a new one is allocated; per-table bound 3*alloc < 5*inuse + 5*E + 1 for every non-empty retired table of every reachable state once compaction is done (entries of at most E bytes). Tied to internal/kvstore by the lock-step churn/kv streams whose dumps expose the counters.",
     "design_ref": "DESIGN.md §6 C20",
     "modelled": "internal/kvstore (as C11); dmap/compaction.go's worker loop is not modelled (it calls Compaction until done)",
     "assumptions": [
-        "the bound theorem takes 'a retired table is nearly full' (the guard of table.Put) as a hypothesis; termination of compaction-to-done is checked by the stream oracle (step budget), not yet proved (partial)",
+        "the bound is proved for every state a workload with entries of at most E bytes reaches from a fresh store (C20_bound_reachable: 'retired => nearly full' is the invariant KV.Churn, kept by every operation); compaction-to-done is proved to terminate below the threshold (C20_compaction_reaches_threshold) for every iteration order that enumerates the drained table's keys once (Go's map range); table transfer (export / import) is outside the workloads of this theorem",
         "float64 rounding of the 0.40 ratio is not modelled",
     ],
 }
@@ -54,10 +54,10 @@ PROPS["C12"] = {
     "lean": ["OlricModel.Props.C12"],
     "streams": [("kv", (40, 300), (500, 400))],
     "model": True,
-    "level_text": "Theorems for every reachable store state: a cursor-resumed walk over one table yields every (matching) entry at or after the cursor exactly once for every page size >= 1 (walkTable_complete, by induction, no bound on the table), the hop to the next table picks the least existing coefficient above the current one (never skips a table, ends only when none is left), and the present keys are each in exactly one table. The composition over tables and the client iterator are checked by the kv stream's full and interleaved walks against an independent reference (partial).",
+    "level_text": "Theorems for every reachable store state: a cursor-resumed walk over one table yields every (matching) entry at or after the cursor exactly once for every page size >= 1 (walkTable_complete, by induction, no bound on the table); the hop to the next table picks the least existing coefficient above the current one; and the whole iteration of a fragment store from cursor 0, every page stamping lastAccess and handing the store on, ends within entries + tables + 1 pages and yields, lastAccess aside, a rearrangement of the entries of the present keys matching the pattern - every present key exactly once, nothing deleted, superseded or never stored (C12_full_walk, C12_full_walk_exactly_once, C12_full_walk_complete_sound), under an invariant on table coefficients and offsets that every store operation keeps (C12_scaninv_step/_run). The per-partition / per-member composition of the client iterators is checked by the kv and cluster streams (partial).",
     "design_ref": "DESIGN.md §6 C12",
     "modelled": "table.Scan/ScanRegexMatch, kvstore.scanCommon/findCoefficient (Store/Model.lean); regexp matching is a parameter",
-    "assumptions": ["regexp / glob matching is a parameter `m : Rec -> Bool`", "the cluster/embedded iterator (cluster_iterator.go) is not modelled in Lean; exercised by the cluster streams only"],
+    "assumptions": ["regexp / glob matching is a parameter `m : Rec -> Bool` that does not look at lastAccess (LaInd)", "the store does not change during the iteration other than by the iteration's own lastAccess stamps (stable keys); iterations interleaved with writes, compaction and table kills are explored by the kv stream", "the cluster/embedded iterator (cluster_iterator.go) is not modelled in Lean; exercised by the cluster streams only"],
 }
 
 PROPS["C18"] = {
